@@ -3,4 +3,4 @@ From OV Require Import Base.Strs Cst.Lits Cst.PyVal Cst.Constraints Cst.Chain Cs
 Require Import ExtrOcamlBasic.
 
 Extraction "../ocaml/gen/cst.ml" extract_anchor eval chain_eval conflicts has_conflict validate_section
-  tool_invalid atom_str py_str date_shape real_date classify_part split_parts_and atom_eqb to_float.
+  tool_invalid atom_str py_str date_shape real_date classify_part split_parts_and atom_eqb num_value fl_leb.
